@@ -157,6 +157,18 @@ func VerifC09Uncertain() {
 		last = e.Revision
 		i := vNameIndex(e.Kv.Key)
 		if e.Type == proto.Event_DELETE {
+			// a delete event (also one announced by the repair) carries the version it removed: the
+			// newest live version below the event's revision in the reference model (which also
+			// holds writes that landed without ever being announced)
+			found := false
+			for r := e.Revision - 1; r > w.base && !found; r-- {
+				if v, ok := w.g.At(e.Kv.Key, r); ok {
+					found = true
+					zzverif.Assert(zzverif.BytesEq(e.Kv.Value, v.Val), "a delete event carries the previous value")
+					zzverif.Assert(e.Kv.Revision == v.Rev, "a delete event names the previous modification revision")
+				}
+			}
+			zzverif.Assert(found, "a delete event refers to a version that existed")
 			snap[i] = vSnapEntry{}
 		} else {
 			snap[i] = vSnapEntry{true, e.Kv.Value, e.Revision}
